@@ -1,0 +1,39 @@
+//go:build verif
+
+package ratelimiter
+
+import "time"
+
+// VerifBucket exposes a tokenBucket with an injected clock to the verification harness.
+type VerifBucket = tokenBucket
+
+// NewBucketForVerif creates a bucket whose notion of time is the given clock.
+func NewBucketForVerif(capacity, refillRate float64, now func() time.Time) *VerifBucket {
+	tb := newTokenBucket(capacity, refillRate)
+	tb.nowFunc = now
+	tb.lastRefill = now()
+	return tb
+}
+
+// AdjustOnFailureForVerif calls adjustOnFailure.
+func (tb *tokenBucket) AdjustOnFailureForVerif(statusCode int) { tb.adjustOnFailure(statusCode) }
+
+// OnSuccessForVerif calls onSuccess.
+func (tb *tokenBucket) OnSuccessForVerif() { tb.onSuccess() }
+
+// StateForVerif returns the bucket's fields. The caller must hold no lock; unlocked selects
+// whether the mutex has to be taken (false when called from a hook inside the critical section).
+func (tb *tokenBucket) StateForVerif(unlocked bool) (tokens, capacity, rate, ideal float64, lastRefill, penaltyUntil time.Time, failures int) {
+	if unlocked {
+		tb.mu.Lock()
+		defer tb.mu.Unlock()
+	}
+	return tb.tokens, tb.capacity, tb.refillRate, tb.idealRate, tb.lastRefill, tb.penaltyUntil, tb.failureCount
+}
+
+// BucketCountForVerif returns the number of buckets currently held by the manager.
+func (bm *BucketManager) BucketCountForVerif() int {
+	bm.mu.Lock()
+	defer bm.mu.Unlock()
+	return len(bm.buckets)
+}
